@@ -129,5 +129,11 @@ Theorem json_one_line_src (h : hdr) (t : str) (named : option (list (str * str))
   exists body, json_sink_line src_json_esc h t named = body ++ [NL] /\ no_nl body = true.
 Proof. rewrite src_json_esc_true. apply json_sink_one_line. Qed.
 
+Theorem json_parses_nl_src (h : hdr) (t : str) (named : option (list (str * str))) :
+  hdr_ok plain_str h = true -> plain_str (no_newlines t) = true ->
+  pairs_ok plain_nl_str (opt_pairs named) = true ->
+  json_parse_line (json_sink_line src_json_esc h t named) = Some (members_of h t named).
+Proof. rewrite src_json_esc_true. apply json_sink_parses_nl. Qed.
+
 Lemma cache_ok_nil_src : cache_ok src_scan_skip [].
 Proof. apply cache_ok_nil. Qed.
